@@ -89,7 +89,18 @@ def build_case(seed_cid):
         for d in decls:
             mt = m_re.Matcher(mstr, nocase=("i" in d["re"].rsplit("/", 1)[1]), dotall=("s" in d["re"].rsplit("/", 1)[1]))
             mexp.append(mt.starts_any(d["ast"]) != 0)
+    # `matches` with a literal operand (may contain NUL bytes)
+    lits = []
+    small = [b for b in bufs if 0 < len(b) < 250]
     src = []
+    for i, d in enumerate(decls):
+        if small:
+            lb = rng.choice(small)
+            fl = d["re"].rsplit("/", 1)[1]
+            mt = m_re.Matcher(lb, nocase=("i" in fl), dotall=("s" in fl))
+            T = mt.starts_any(d["ast"])
+            lits.append((i, lb, T != 0, m_re.bits(T) == [len(lb)]))
+            src.append("rule l%d { condition: %s matches %s }" % (i, m_text.quote(lb), d["re"]))
     for i, d in enumerate(decls):
         src.append("rule r%d { strings: $a = %s condition: $a }" % (i, d["text"]))
         if mstr is not None:
@@ -102,7 +113,7 @@ def build_case(seed_cid):
     for j, b in enumerate(bufs):
         lines.append("buf %d %s" % (j, hx(b)))
         lines.append("scan r0 mem %d 0 0 -" % j)
-    meta = dict(decls=decls, bufs=bufs, exp=exp, src=text, near=near, mstr=mstr, mexp=mexp)
+    meta = dict(decls=decls, bufs=bufs, exp=exp, src=text, near=near, mstr=mstr, mexp=mexp, lits=lits)
     return Case(cid, lines, meta)
 
 
@@ -182,6 +193,23 @@ def evaluate(chk, case, res, stats):
             if len(stats["samples"]) < 6 and must and len(buf) < 80:
                 stats["samples"].append({"string": d["text"], "buffer_hex": buf.hex(), "expected": sorted(must)[:8],
                                          "reported": rep[:8]})
+        if j == 0:
+            for i, lb, want, only_end in m.get("lits", []):
+                v = verdicts.get("default:l%d" % i)
+                d = m["decls"][i]
+                stats["matches_cases"] += 1
+                if want:
+                    stats["matches_true"] += 1
+                if 0 in lb:
+                    stats["matches_nul_operand"] = stats.get("matches_nul_operand", 0) + 1
+                if v is None or (v == 1) != want:
+                    w = dict(wit_base, regex=d["re"], operand_hex=lb.hex(), expected=want, verdict=v)
+                    if not (v == 1) and want and only_end:
+                        chk.violation("matches-empty-match-at-end", w)
+                    elif not (v == 1) and want and m_re.has_counted_loop_over_split(d["ast"]):
+                        chk.violation("counted-repeat-loop-missed", w)
+                    else:
+                        chk.violation("matches-operator", w)
         if j == 0 and m["mstr"] is not None:
             for i, d in enumerate(m["decls"]):
                 v = verdicts.get("default:m%d" % i)
@@ -278,7 +306,8 @@ def main(args):
              "match and the buffer holds a near-miss; distinct by sha256(string, buffer)",
         samples=stats["samples"],
         extra={"compilations": len(cases) + len(xcases), "matches_operator_cases": stats["matches_cases"],
-               "matches_operator_true": stats["matches_true"], "modifier_shapes": len(stats["shapes"]),
+               "matches_operator_true": stats["matches_true"],
+               "matches_operands_with_NUL": stats.get("matches_nul_operand", 0), "modifier_shapes": len(stats["shapes"]),
                "expressions_rejected_by_compiler": stats["rejected"], "reject_messages": sorted(stats["reject_msgs"])[:5],
                "scans_hitting_fiber_limit": stats["fiber_limit"], "small_scope_expressions": len(xcases),
                "small_scope_buffers_each": 127},
